@@ -57,6 +57,7 @@ type payload struct {
 	Origin int    `json:"origin"`
 	Body   string `json:"body"`
 	OK     bool   `json:"ok"`
+	Enc    string `json:"enc,omitempty"` // schedule only: "p1" / "p2" = the framing twins (see twinAny); the spec sees origin/body/ok
 }
 
 type sigDesc struct {
@@ -100,7 +101,35 @@ func (p payload) toProto() proto.Message {
 	return wrapperspb.String(strconv.Itoa(p.Origin) + "|" + p.Body)
 }
 
+// twinBody is the body of framing twin "p2"; twin "p1" has the empty body.
+const twinBody = "tw2"
+
+// twinAny builds two DIFFERENT well-formed any-wrapped MsgNodeSig payloads of the same origin whose type URL followed by
+// the value is the same byte string (the boundary between the two fields is moved):
+//
+//	p1: TypeUrl = U,         Value = moved || X || Y   decodes to MsgNodeSig{unknown field 15, PeerIndex: origin}  (body "")
+//	p2: TypeUrl = U + moved, Value = X || Y            decodes to MsgNodeSig{Signature: "tw2", PeerIndex: origin}
+//
+// with U = "type.googleapis.com/dkg.dkgpb.v1.MsgNodeSig", X = field 1 ("tw2"), Y = field 2 (origin) and
+// moved = header of an unknown length-delimited field 15 + "/dkg.dkgpb.v1.MsgNodeSig" (a type URL is resolved by the text after
+// its last '/').  A hash that does not delimit type URL and value cannot tell them apart.
+func twinAny(origin int, which string) *anypb.Any {
+	const suffix = "/dkg.dkgpb.v1.MsgNodeSig"
+	x := append([]byte{1<<3 | 2, byte(len(twinBody))}, twinBody...)
+	y := []byte{2<<3 | 0, byte(origin)}
+	moved := append([]byte{15<<3 | 2, byte(len(suffix) + len(x))}, suffix...)
+	if which == "p1" {
+		return &anypb.Any{TypeUrl: "type.googleapis.com" + suffix, Value: append(append(append([]byte{}, moved...), x...), y...)}
+	}
+
+	return &anypb.Any{TypeUrl: "type.googleapis.com" + suffix + string(moved), Value: append(append([]byte{}, x...), y...)}
+}
+
 func (p payload) toAny() *anypb.Any {
+	if p.Enc == "p1" || p.Enc == "p2" {
+		return twinAny(p.Origin, p.Enc)
+	}
+
 	a, err := anypb.New(p.toProto())
 	if err != nil {
 		panic(err)
